@@ -75,6 +75,17 @@ def _mk_cases(seed, shard, count):
             attached = rng.choice([0, 0, 1, 2, 3, claimed if claimed < 8 else 4])
             cases.append(("fds:%d" % attached, gen.encode(msg)))
             continue
+        if r >= 0.17 and r < 0.1715 and msg["mtype"] <= 4:
+            # a large unknown header field in front of the known ones pushes their offsets past 2^15 / 2^16: the header
+            # may be as long as the message limit allows, and every known field must still be found where it is
+            big = rng.choice([32600, 32760, 33000, 40000, 65400, 65530, 66000, 70000, 131100])
+            payload = bytes(rng.getrandbits(8) for _ in range(64)) * (big // 64)
+            m2 = dict(msg)
+            m2["fields"] = [(rng.choice([11, 77, 127, 200, 255]), Variant(b"ay", list(payload)))] + list(msg["fields"])
+            d2 = gen.encode(m2)
+            if wire.validate(d2).kind == wire.VALID:
+                cases.append(("big-unknown-field", d2))
+            continue
         data, sites = gen.encode(msg, want_sites=True)
         if r < 0.33:
             cases.append(("valid", data))
